@@ -140,16 +140,21 @@ func ZZ_C17_Sort(sv *zzsv.T) {
 	in := &object.Array{Elements: []object.Object{}}
 	for k := 0; k < n; k++ {
 		var el zv
-		if sv.Choice("el.isint", 2) == 1 {
+		switch sv.Choice("el.kind", 3) {
+		case 1:
 			i := sv.Int64("el")
 			sv.Assume(i >= -99)
 			sv.Assume(i <= 999)
 			el = zInt(i)
-		} else {
-			// letters of both cases so that case folding matters
+		case 2:
+			// floats whose printed forms coincide with integers and strings
+			el = zFloat([]float64{1, 2, 1.5}[sv.Choice("el.float", 3)])
+		default:
+			// letters of both cases so that case folding matters, and a digit
+			// so that a string can print like a number
 			s := sv.String("el", sv.Choice("el.len", sv.Param("sort.strlen", 1, 2)+1))
 			for j := 0; j < len(s); j++ {
-				sv.Assume(s[j] == 'a' || s[j] == 'B' || s[j] == 'b' || s[j] == 'C')
+				sv.Assume(s[j] == 'a' || s[j] == 'B' || s[j] == 'b' || s[j] == 'C' || s[j] == '1')
 			}
 			el = zStr(s)
 		}
